@@ -101,7 +101,7 @@ def parse_stderr(text):
     return out
 
 
-def run_verus(path, seed=None, extra=(), multiple_errors=4):
+def run_verus(path, seed=None, extra=(), multiple_errors=12):
     cmd = ["verus", path, "--output-json", "--time", "--multiple-errors", str(multiple_errors), "--rlimit", str(CFG.VERUS_RLIMIT), "--num-threads", str(CFG.VERUS_THREADS), "--triggers-mode", "silent"]
     if seed is not None:
         cmd += ["--smt-option", "smt.random_seed=%d" % seed]
@@ -139,9 +139,27 @@ def item_for_line(report, line):
     return None
 
 
+TAG_RE = re.compile(r"//.*\[(composite:\s*)?((?:C\d\d)(?:[ ,]+C\d\d)*)\]")
+
+
+def clause_tags(gen_lines, line):
+    """property tags written on the failing clause (its first line):
+         // [C05 C07]             the clause speaks for these properties
+         // [composite: C01 C05]  the clause is the whole contract that callers use; it is only
+                                  consulted when no facet clause of the same function failed
+    -> (tags or None, composite flag)"""
+    if not (1 <= line <= len(gen_lines)):
+        return None, False
+    m = TAG_RE.search(gen_lines[line - 1])
+    if not m:
+        return None, False
+    return re.findall(r"C\d\d", m.group(2)), bool(m.group(1))
+
+
 def analyse(unit, path, report, res):
     """-> dict(ok, failures=[{item,label,msg,text,kind}], internal=[...], novalue=reason|None, stats)"""
     js = res["json"]
+    gen_lines = open(path, encoding="utf-8").read().split("\n")
     errs = [e for e in parse_stderr(res["stderr"]) if e["level"] == "error"]
     if js is None or "verification-results" not in js:
         hard = [e for e in errs if not e["msg"].startswith("aborting")]
@@ -159,7 +177,7 @@ def analyse(unit, path, report, res):
             internal.append(e)
             continue
         it = item_for_line(report, e["line"])
-        rec = {"label": it["label"] if it else None, "props": (it.get("props") if it else None), "msg": e["msg"], "text": e["text"], "line": e["line"]}
+        rec = {"label": it["label"] if it else None, "props": (it.get("props") if it else None), "msg": e["msg"], "text": e["text"], "line": e["line"], "tags": clause_tags(gen_lines, e["line"])[0], "composite": clause_tags(gen_lines, e["line"])[1]}
         if "rlimit" in e["msg"].lower() or "resource limit" in e["msg"].lower():
             rlimited.append(rec)
         elif e["code"]:
@@ -359,6 +377,9 @@ def _check(prop, cfg, tier, seed, scratch, t0):
         for u in units:
             unit_results.append(futs[u].result())
     violations = []  # {obligation, text}
+    other_failures = []  # failing obligations that belong to other properties only
+    mine_labels = {}
+    pending_rows = []
     novalue = []
     obligations = 0
     discharged = 0
@@ -378,18 +399,44 @@ def _check(prop, cfg, tier, seed, scratch, t0):
             if not tagged(it, prop):
                 continue
             obligations += 1
-            ok = it["label"] not in failed_labels and it["label"] not in rl_labels
-            if ok:
-                discharged += 1
+            ok = True  # settled below, once failures have been attributed
+            pending_rows.append((it, an))
             fn_rows.append({"function": it["label"], "unit": an["unit"], "source_lines": it["lines"], "clauses": it["contract_clauses"], "discharged": ok, "rewrites": sorted({e["rule"] for e in it["edits"] if e["rule"] != "A"})})
+        by_label = {}
         for f in an["failures"]:
-            it = next((i for i in rep["items"] if i["label"] == f["label"]), None)
-            if it is not None and tagged(it, prop):
-                violations.append({"obligation": "%s: %s" % (f["label"], f["msg"]), "unit": an["unit"], "verifier_output": f["text"]})
+            by_label.setdefault(f["label"], []).append(f)
+        for label, fs in by_label.items():
+            it = next((i for i in rep["items"] if i["label"] == label), None)
+            if it is None:
+                continue
+            # facet clauses (tagged, not composite) speak for their properties only; when none of
+            # them failed, the composite / untagged failures speak for everything they cover
+            precise = set()
+            for f in fs:
+                if f.get("tags") and not f.get("composite"):
+                    precise |= set(f["tags"])
+            for f in fs:
+                if precise:
+                    mine = prop in precise and bool(f.get("tags")) and not f.get("composite") and prop in f["tags"]
+                elif f.get("tags"):
+                    mine = prop in f["tags"]
+                else:
+                    mine = tagged(it, prop)
+                if mine:
+                    violations.append({"obligation": "%s: %s" % (label, f["msg"]), "unit": an["unit"], "verifier_output": f["text"]})
+                else:
+                    other_failures.append("%s: %s [%s]" % (label, f["msg"], ",".join(f.get("tags") or it.get("props") or [])))
+            mine_labels[label] = any(v["obligation"].startswith(label + ":") for v in violations)
         for f in an["rlimited"]:
             it = next((i for i in rep["items"] if i["label"] == f["label"]), None)
             if it is not None and tagged(it, prop):
                 novalue.append("%s: %s" % (f["label"], f["msg"]))
+    rl_all = {f["label"] for an in unit_results for f in an["rlimited"]}
+    for row in fn_rows:
+        bad = mine_labels.get(row["function"], False) or row["function"] in rl_all
+        row["discharged"] = not bad
+        if not bad:
+            discharged += 1
     # vacuity guards
     canaries = []
     for u in units:
@@ -460,6 +507,8 @@ def _check(prop, cfg, tier, seed, scratch, t0):
             log("FAILED OBLIGATION: %s\n%s" % (v["obligation"], v["verifier_output"][:1500]))
         print("VIOLATION property=%s replay=%s%s" % (prop, path, suffix))
         return 1
+    for o in other_failures:
+        log("note: obligation of another property fails (not counted for %s): %s" % (prop, o))
     print("OK property=%s obligations=%d discharged=%d wall=%.1fs" % (prop, obligations, discharged, wall))
     return 0
 
